@@ -6,7 +6,7 @@ import NetaddrVerif.Model.Eui
 import NetaddrVerif.Lemmas.C15LPyInt
 import NetaddrVerif.Lemmas.C15LBits
 namespace NV.Eui
-open NV.Py NV.Codec
+open NV.Py NV.PyL NV.Codec
 
 /-! ### the character class -/
 
